@@ -50,13 +50,15 @@ Record case7z := {
   c_bad_writes : list str;        (* open(…,"wb") calls that raised *)
   c_skipped : list str;           (* member names for which _should_skip_file answered True *)
   c_max_mem : Z;
+  c_dsizes : list (str * Z);      (* os.path.getsize answers recorded during the read-back *)
   c_events : list ev              (* traced: makedirs / open wb / isfile / open rb, in order *)
 }.
 
 Definition run_case7z (c : case7z) : list ev :=
   run_7z (c_cwd c) (c_base c) (fun k => nth k (c_dec c) None)
          (fun p => negb (mem_str p (c_bad_dirs c))) (fun p => negb (mem_str p (c_bad_writes c)))
-         (fun n => mem_str n (c_skipped c)) (c_max_mem c) [] (c_hdr c).
+         (fun n => mem_str n (c_skipped c)) (c_max_mem c) []
+         (fun p => match assoc p (c_dsizes c) with Some z => z | None => 0 end) (c_hdr c).
 
 Definition case7z_ok (c : case7z) : bool := evs_eqb (run_case7z c) (c_events c).
 
